@@ -300,6 +300,13 @@ class SlavePort(core_ports.BasePort):
 
         return None
 
+    def forget_provisioning_value(self) -> None:
+        # Called when the pending value could not be pushed to the device: the cached value would otherwise be compared with
+        # what the device reports (polling, value-change events) as if the device had it, and a device value that happens to
+        # be equal would never be read
+        if 'value' in self._provisioning:
+            self._cached_value = None
+
     def clear_provisioning(self) -> None:
         self._provisioning = set()
         self.invalidate_attr('provisioning')
